@@ -669,7 +669,7 @@ def clauses(tier):
         Clause("moslem_year_pairs", chunks(list(range(1, 2501)), 64), run_m2g_pairs,
                lambda c: [], floor=1000000, shape="H"),
         Clause("cycle_day_pairs", [(i, i + 4000, 1 if tier == "thorough" else 23) for i in range(0, 872000, 4000)],
-               run_cycle_day_pairs, replay_cycle_pair, floor=50000, shape="H"),
+               run_cycle_day_pairs, replay_cycle_pair, floor=20000, shape="H"),
         Clause("impossible_civil_dates", chunks(list(range(623, 3001)), 16), run_impossible,
                lambda c: check_impossible(c["year"]), floor=2000, shape="H"),
     ] + ([Clause("tlc_cross_model", TLC_WINDOWS, run_tlc, replay_m2g, floor=1000, shape="S"),
